@@ -285,6 +285,12 @@ def run_concrete(fn, params, draws, twin=False):
         out["error"] = repr(e)
         return out
     except Exception as e:
+        if raised_in_harness(e):
+            # the harness itself tripped (an attribute of the library it reads is gone, a result has a shape its oracle
+            # does not handle): nothing is known about the property, and it is not a violation
+            out["outcome"] = "harness_error"
+            out["error"] = "harness tripped: %r" % (e,)
+            return out
         tb = e.__traceback__
         where = "?"
         while tb is not None:
@@ -301,6 +307,22 @@ def run_concrete(fn, params, draws, twin=False):
     out["notes"] = jsonable(d.notes)
     out["draws_extended"] = d.extended
     return out
+
+
+_VF_DIR = os.path.dirname(os.path.abspath(__file__))
+
+
+def raised_in_harness(e):
+    """True when exception e was raised by a statement of the verification code itself (vf/...), not by the library and
+    not inside a standard-library or engine frame called from the library"""
+    tb = e.__traceback__
+    last = None
+    while tb is not None:
+        last = tb
+        tb = tb.tb_next
+    if last is None:
+        return False
+    return os.path.abspath(last.tb_frame.f_code.co_filename).startswith(_VF_DIR + os.sep)
 
 
 def repo_setup():
